@@ -92,7 +92,7 @@ class Roles(object):
         self.add_params = [a.arg for a in m.fn(self.add).args.args]
         self.read_view = m.flat(R + ".read", keep=(self.filelist_name, self.add_name, "get_bounds"), depth=4)
         # recursive reader method (nested groups)
-        pops = [n for n, f in rm.items() if _calls(f, lambda c, n=n: pyfront.call_name(c) == "self." + n)]
+        pops = [n for n, f in rm.items() if _calls(f, lambda c, n=n: pyfront.call_name(c) in ("self." + n, "cls." + n, R + "." + n))]
         if len(pops) != 1:
             raise AnalysisError("%s: expected one recursive method (reading nested groups), found %s" % (R, pops))
         self.populate_name = pops[0]
